@@ -64,7 +64,7 @@ MANIFEST = dict(
 )
 FLOORS = {"C10.1": 3, "C10.2": 2, "C10.3": 4, "C10.4": 2, "C10.5": 1,
           "C10.6": 12, "C10.7": 4, "C10.8": 6, "C10.9": 2,
-          "C10.10": 1, "C10.11": 2}
+          "C10.10": 1, "C10.11": 2, "C10.12": 4}
 
 FI = "evo.core.filters.filter_pairs_by_index"
 FP = "evo.core.filters.filter_pairs_by_path"
@@ -115,6 +115,13 @@ def check(ctx):
     from ..core import import_rules
     n = import_rules(ctx, "c09", ("C09.4",), "C10.11")
     ctx.require(n >= 2, "C10.11: rotation-angle instances not found")
+    # the modes the property distinguishes (consecutive / all pairs, pairs
+    # taken from the reference) are chosen on the command line of evo_rpe:
+    # each option must reach the RPE constructor parameter of its name
+    # (instances of C02.7, constructor wiring)
+    n = import_rules(ctx, "c02", ("C02.7",), "C10.12",
+                     pred=lambda o: ":rpe:ctor:" in o.key)
+    ctx.require(n >= 4, "C10.12: RPE constructor wiring instances not found")
 
 
 def _callers(ctx, prog):
@@ -232,12 +239,29 @@ def _by_path(ctx, prog):
         loop = [e for e in r.of_kind("loop") if e.data["lid"] == lid][0]
         ch = _ite_chain(upd)
         acc = [(c, v) for c, v in ch if c is not None]
-        ok = init is T("list") and len(acc) == 1 and \
+        def plain_index(x: T) -> T:
+            # enumerate(xs, 0): index + 0
+            if x.op == "binop" and x.args[0] == "Add" and \
+                    tm.is_const(x.args[2], 0) and x.args[1].op == "index":
+                return x.args[1]
+            return x
+        shape = init is T("list") and len(acc) == 1 and \
             acc[0][1].op == "mut" and acc[0][1].args[1] == "append" and \
-            acc[0][1].args[2] == (T("index", lid),) and \
-            is_call_to(loop.data["iter"], "builtins.enumerate") and \
-            _per_pose_source(loop.data["iter"].args[1][0])
-        ctx.ob("C10.1", f, ok,
+            len(acc[0][1].args[2]) == 1 and \
+            plain_index(acc[0][1].args[2][0]) is T("index", lid) and \
+            is_call_to(loop.data["iter"], "builtins.enumerate")
+        ok = shape and _per_pose_source(loop.data["iter"].args[1][0])
+        if shape and not ok and any(
+                x.op == "unknown" or "generator" in fmt(x)[:40]
+                for x in loop.data["iter"].args[1][0].walk()):
+            # the indices are appended in loop order, but what is iterated
+            # (a generator with its own state ...) is not modelled
+            ctx.undecidable("C10.1", f, f"meters/consecutive: the loop "
+                            f"iterates {fmt(loop.data['iter'])[:80]}, whose "
+                            f"elements are not modelled")
+            ok = None
+        if ok is not None:
+          ctx.ob("C10.1", f, ok,
                "meters/consecutive: ids are appended in increasing loop "
                "order over all poses" if ok else
                f"meters/consecutive: id list update is {fmt(upd)}",
@@ -875,12 +899,18 @@ def _dispatch(ctx, prog):
         "radians": (FA, {"poses": POSES, "delta": DELTA, "tol": tolv,
                          "degrees": const(False), "all_pairs": allp}),
     }
+    from ..lib import extra_defaults
+    # (options added later — an absolute tolerance ... — at their defaults)
+    xd = extra_defaults(f, ["poses", "delta", "delta_unit", "rel_tol",
+                            "all_pairs"], prog)
+    ctx.require(xd is not None, "id_pairs_from_delta signature changed")
     for member in prog.enum_members(UNIT):
-        r = Interp(prog).run(f, {"delta_unit": tm.enum(uq, member)})
+        r = Interp(prog).run(f, dict(xd, delta_unit=tm.enum(uq, member)))
         ctx.analysed["configs"] += 1
         calls = [e for e in r.of_kind("call") if e.data.get("target") is not
                  None and e.data["target"].module.name == "evo.core.filters"
-                 and e.data["target"].cls is None]
+                 and e.data["target"].cls is None and
+                 not e.data.get("inlined")]
         if member not in table:
             raised = any("FilterException" in (e.data.get("exc_name") or "")
                          and tm.is_const(e.live, True)
